@@ -553,6 +553,22 @@ Theorem C13_rounded_half_between_refuted : forall (prec : nat) (m : rmode) (d : 
   ~ round_q m d (sig_round prec x) == round_q m d x.
 Proof. exact half_strictly_between_differs. Qed.
 
+(* for the three HALF modes the class EXACTLY: [dr_class_half] = a half strictly between the count and its quotient, or one of the two IS a
+   half and the tie rule of the mode sends it away from the other; the library returns the wrong neighbour on this class and nowhere else *)
+Theorem C13_rounded_half_class_exact : forall (prec : nat) (m : rmode) (d : nat) (x : Q), half_mode m = true ->
+  (dr_class_half prec m d x = true <-> ~ round_q m d (sig_round prec x) == round_q m d x).
+Proof. exact dr_class_half_exact. Qed.
+
+Theorem C13_rounded_code_half_exact : forall (prec : nat) (m : rmode) (d : nat) (x r : Q), half_mode m = true ->
+  round_code prec true m d x = ROk r -> (r == round_q m d x <-> dr_class_half prec m d x = false).
+Proof. exact round_code_half_exact. Qed.
+
+Example C13_rounded_half_class_example :
+  let x := (1#2) + (1 # 10 ^ 30) in
+  dr_class_half 28 RHalfDown 0 x = true /\ dr_class_half 28 RHalfUp 0 x = false /\ dr_class 28 RHalfUp 0 x = true /\
+  dr_class_half 28 RHalfEven 0 ((3#2) - (1 # 10 ^ 30)) = true /\ dr_class_half 28 RHalfEven 0 ((5#2) - (1 # 10 ^ 30)) = false.
+Proof. vm_compute. repeat split; reflexivity. Qed.
+
 (* inside and wrong (HALF_DOWN, UP), inside and right all the same (HALF_UP: the quotient IS the half, the tie rule decides), outside although
    the quotient is inexact (1/3 to two decimals) *)
 Example C13_rounded_class_witnesses :
@@ -642,3 +658,5 @@ Print Assumptions C13_rounded_code_outside_class.
 Print Assumptions C13_rounded_no_boundary_between.
 Print Assumptions C13_rounded_exact_quotient_outside_class.
 Print Assumptions C13_rounded_half_between_refuted.
+Print Assumptions C13_rounded_half_class_exact.
+Print Assumptions C13_rounded_code_half_exact.
